@@ -51,7 +51,7 @@ def render(h: HState, sn: str, ev: dict) -> str | bytes:
         return f"{u}SEARCH {ev.get('key', 'ALL')}"
     if op == "expunge":
         return "EXPUNGE" if not ev.get("uidset") else f"UID EXPUNGE {h._which(sn, ev['uidset'], True)}"
-    if op in ("noop", "check", "close", "capability", "namespace"):
+    if op in ("noop", "check", "close", "capability", "namespace", "idle"):
         return op.upper()
     if op == "lsub":
         return 'LSUB "" "*"'
@@ -89,6 +89,7 @@ class SRun:
             self.h = HState(cfg, prefix=prefix)
         self.fails: list[Failure] = []
         self.views: dict = {}
+        self.fcache: dict = {}  # session -> per position: the last FLAGS value the session was sent (None: never told)
         self.inflight: dict = {}
         self.kinds: dict = {}
 
@@ -112,10 +113,12 @@ class SRun:
         if r.typ == "EXISTS":
             if cur and cur[0] in ("select", "examine"):
                 self.views[sess.name] = [None] * r.num
+                self.fcache[sess.name] = [None] * r.num
                 return
             if r.num < len(v):
                 self.fail("C01.exists-shrinks", {"emitter": _emitter(sess)}, f">= {len(v)}", r.num)
             else:
+                self.fcache.setdefault(sess.name, [None] * len(v)).extend([None] * (r.num - len(v)))
                 v.extend([None] * (r.num - len(v)))
         elif r.typ == "EXPUNGE":
             if cur and cur[0] in ("fetch", "store", "search") and not cur[1]:
@@ -125,6 +128,9 @@ class SRun:
                 self.fail("C01.expunge-out-of-view", {"emitter": _emitter(sess)}, f"1..{len(v)}", r.num)
             else:
                 v.pop(r.num - 1)
+                fc = self.fcache.setdefault(sess.name, [None] * (len(v) + 1))
+                if r.num - 1 < len(fc):
+                    fc.pop(r.num - 1)
         elif r.typ == "FETCH":
             if not (1 <= r.num <= len(v)):
                 self.fail("C01.fetch-out-of-view", {"emitter": _emitter(sess), "cmd": cur[0] if cur else None}, f"1..{len(v)}", r.num)
@@ -133,6 +139,11 @@ class SRun:
                 it = fetch_items(r)
             except Exception:
                 return
+            if "FLAGS" in it:
+                fc = self.fcache.setdefault(sess.name, [None] * len(v))
+                while len(fc) < len(v):
+                    fc.append(None)
+                fc[r.num - 1] = norm_flags([str(x) for x in (it["FLAGS"] or [])])
             if "UID" in it:
                 u = int(it["UID"])
                 if v[r.num - 1] is None:
@@ -181,7 +192,14 @@ class SRun:
             if (sn, i) in pop_mark:  # POP3: one reply per command line (or the session ends)
                 s_ = w.sessions.get(sn)
                 return s_ is None or s_.task.done() or (len(s_.out) > pop_mark[(sn, i)] and s_.out.endswith(b"\r\n"))
+            if cmds[sn][i]["op"] == "idle":
+                # an IDLE is "answered" for the purpose of sending what follows (DONE) once its continuation has arrived
+                s_ = w.sessions[sn]
+                return tags[(sn, i)] in self.done_tags[sn] or any(x.kind == "cont" for x in s_.responses[idle_mark.get((sn, i), 0):])
             return tags[(sn, i)] in self.done_tags[sn]
+
+        idle_mark: dict = {}
+        idle_tag: dict = {}
 
         def can_feed(sn):
             i = nxt[sn]
@@ -200,13 +218,26 @@ class SRun:
                 t_sent[(sn, i)] = w.loop.time()
                 nxt[sn] += 1
                 return
+            if ev["op"] == "done":
+                h.log(f"C[{sn}]: DONE")
+                self.kinds[sn] = ("done", False)
+                self.cur_idx[sn] = i
+                tags[(sn, i)] = idle_tag.get(sn, "?")
+                w.sessions[sn].send_raw(b"DONE")
+                t_sent[(sn, i)] = w.loop.time()
+                nxt[sn] += 1
+                return
             text = render(h, sn, ev)
+            if ev["op"] == "idle":
+                idle_mark[(sn, i)] = len(w.sessions[sn].responses)
             h.log(f"C[{sn}]: {text if isinstance(text, str) else text[:60]}")
             self.kinds[sn] = (ev["op"], ev.get("uid", False))
             self.cur_idx[sn] = i
             if ev["op"] in ("select", "examine"):
                 self.views[sn] = []
             tags[(sn, i)] = w.sessions[sn].send(text)
+            if ev["op"] == "idle":
+                idle_tag[sn] = tags[(sn, i)]
             t_sent[(sn, i)] = w.loop.time()
             nxt[sn] += 1
 
@@ -257,6 +288,7 @@ class SRun:
         # the first drain (the peer reads slowly); the command is "in progress" when the others start
         for sn in self.scn.get("parked", ()):
             w.sessions[sn].writer.drain_mode = 9
+            w.sessions[sn].writer.park_skip = int((self.scn.get("parked_at") or {}).get(sn, 1)) - 1  # park at the n-th drain
             feed(sn)
             w.loop.run_until(lambda: any(lab == f"Dr{sn}" for lab, f in getattr(w.loop, "parked_drains", []) if not f.done()),
                              allow_timers=False)
@@ -304,7 +336,7 @@ class SRun:
                         self.fail("C10.command-never-answered", {"op": ev["op"], "uid": ev.get("uid", False), "parked": _parked(w)},
                                   "tagged reply", None)
                     results[key] = ("NONE",)
-                    if s.task.done() and sn in (list(self.scn.get("slow", ())) + list(self.scn.get("parked", ()))) and ev["op"] in ("fetch", "search", "noop"):
+                    if s.task.done() and sn in (list(self.scn.get("slow", ())) + list(self.scn.get("parked", ()))) and ev["op"] in ("fetch", "search", "noop", "idle", "done", "capability", "lsub"):
                         # a peer that did not read for 2 s is disconnected (push()'s write timeout): its
                         # read-only command has no outcome to judge
                         results[key] = ("DROPPED",)
@@ -331,6 +363,15 @@ class SRun:
         # observation (sequential, unrecorded)
         final_lists = {}
         alive = [sn for sn in cmds if not w.sessions[sn].task.done() and not getattr(w.sessions[sn], "pop3", False)]
+        # every session synchronises first (NOOP): what it has been told about flags by then is kept aside, because the observer's
+        # own look at the mailbox (it clears \\Recent) makes the server send fresh FLAGS to everybody
+        fc_saved = {}
+        for sn in alive:
+            if sn in self.views:
+                self.kinds[sn] = ("noop", False)
+                r0, _ = w.sessions[sn].do("NOOP")
+                if r0 is not None and r0.typ == "OK" and sn in self.fcache:
+                    fc_saved[sn] = list(self.fcache[sn])
         obs = h.observe_store("O")
         for name, rec in obs.items():
             if rec.get("exists"):
@@ -367,6 +408,14 @@ class SRun:
             got = self.views[sn]
             if [g for g in got] != want and any(g is not None and g != w_ for g, w_ in zip(got, want)):
                 self.fail("C01.final-view", {}, want, got)
+            # what the session was last told about each message's flags is what the flags are (after its NOOP)
+            fc = fc_saved.get(sn)
+            fin = final_lists.get(sel)
+            if fc is not None and fin is not None and len(fc) == len(fin):
+                for pos, (told, (cid_, fl_)) in enumerate(zip(fc, fin)):
+                    if told is not None and set(told) != set(fl_):
+                        self.fail("C04.stale-flags-after-sync", {"pos": pos + 1}, sorted(fl_), sorted(told))
+                        break
         # map fetched UIDs to content ids (literal if present, else via the uid tables)
         uid2cid = {}
         for name, mb in model0.mboxes.items():
